@@ -43,6 +43,9 @@ type ledger struct {
 	Proved   map[string]string `json:"proved"` // obligation full name -> solver at baseline time
 	Funcs    []string          `json:"functions"`
 	Slow     []string          `json:"proved_but_slow,omitempty"` // discharged at baseline time, too slow to pin
+	// not discharged at baseline time (solver limits): the quick tier does not spend its time on them again,
+	// the thorough tier attempts them; they are reported as undecided, never as proved
+	Undecided []string `json:"undecided_at_baseline,omitempty"`
 }
 
 type finding struct {
@@ -189,6 +192,24 @@ func cmdCheck(args []string) int {
 	}
 	solver := vc.NewSolver(filepath.Join(*verif, "out"), cacheOn, timeout)
 	solver.AllAgree = *tier == "thorough"
+	var skippedUndecided []string
+	if *tier == "quick" && !*rebase && !*triage && len(led.Undecided) > 0 {
+		skip := map[string]bool{}
+		for _, n := range led.Undecided {
+			skip[n] = true
+		}
+		for _, r := range results {
+			var keep []*vc.Obligation
+			for _, o := range r.Obls {
+				if skip[r.Func+"#"+o.Name] {
+					skippedUndecided = append(skippedUndecided, r.Func+"#"+o.Name+" (undecided at baseline; attempted in the thorough tier only)")
+				} else {
+					keep = append(keep, o)
+				}
+			}
+			r.Obls = keep
+		}
+	}
 	ors := solveAll(results, solver, 16)
 
 	// vacuity: entry and some return path must be satisfiable (not refuted)
@@ -314,7 +335,11 @@ func cmdCheck(args []string) int {
 			discharged++
 			proved[full] = or.Solver
 			if len(samples) < 6 && len(or.Answers) > 0 {
-				samples = append(samples, map[string]interface{}{"obligation": full, "clause": or.Obl.Src, "smt_file": or.Answers[0].File, "path_queries": len(or.Answers)})
+				// proved queries are not kept on disk; the sample is written out again
+				sf := filepath.Join(*verif, "out", "samples", *prop, sanitizeFile(full)+".smt2")
+				os.MkdirAll(filepath.Dir(sf), 0o755)
+				os.WriteFile(sf, []byte(resByFunc[or.Func].Query(or.Obl.Queries[0], false)), 0o644)
+				samples = append(samples, map[string]interface{}{"obligation": full, "clause": or.Obl.Src, "smt_file": sf, "path_queries": len(or.Answers)})
 			}
 		} else {
 			a := or.Answers[or.FailIdx]
@@ -373,7 +398,7 @@ func cmdCheck(args []string) int {
 		}
 		i := strings.Index(n, "#")
 		obl := n[i+1:]
-		if strings.HasPrefix(obl, "safety:") || strings.HasPrefix(obl, "call#") {
+		if strings.HasPrefix(obl, "safety:") || strings.HasPrefix(obl, "call#") || strings.HasPrefix(obl, "frame:") || strings.Contains(obl, ":frame:") || strings.HasPrefix(obl, "refine:") {
 			continue
 		}
 		fnName := n[:i]
@@ -415,7 +440,15 @@ func cmdCheck(args []string) int {
 				slow = append(slow, fmt.Sprintf("%s (%d ms)", full, mx))
 			}
 		}
-		nl := ledger{Property: *prop, Proved: proved, Funcs: funcsUnder, Slow: slow}
+		var und []string
+		for _, or := range ors {
+			full := or.Func + "#" + or.Obl.Name
+			if _, isKnown := known[full]; or.Verdict != "proved" && !isKnown {
+				und = append(und, full)
+			}
+		}
+		sort.Strings(und)
+		nl := ledger{Property: *prop, Proved: proved, Funcs: funcsUnder, Slow: slow, Undecided: und}
 		lb, _ := json.MarshalIndent(nl, "", " ")
 		os.MkdirAll(filepath.Join(*verif, "baseline", "ledger"), 0o755)
 		os.WriteFile(filepath.Join(*verif, "baseline", "ledger", *prop+".json"), lb, 0o644)
@@ -428,7 +461,7 @@ func cmdCheck(args []string) int {
 		level = "proof"
 	}
 	explanation := ""
-	if level == "proof" && (len(knownHit) > 0 || len(undecided) > 0 || len(unsupportedFns) > 0) {
+	if level == "proof" && (len(knownHit) > 0 || len(undecided) > 0 || len(skippedUndecided) > 0 || len(unsupportedFns) > 0) {
 		level = "other"
 		explanation = "contract-based deductive verification; not every generated obligation is discharged (known findings / undecided obligations listed), so this run is not reported at proof level"
 	}
@@ -450,6 +483,8 @@ func cmdCheck(args []string) int {
 	for _, t := range keys(relied) {
 		tb = append(tb, "contract relied upon at call sites (verified where it is listed under functions_under_contract of its property): "+t)
 	}
+	undecided = append(undecided, skippedUndecided...)
+	total += len(skippedUndecided)
 	cov := map[string]interface{}{
 		"obligations": total, "discharged": discharged,
 		"checker_cmd":  fmt.Sprintf("/verif/check %s --tier %s", *prop, *tier),
